@@ -521,6 +521,17 @@ example : (Pandora.Gen.Locks.pkgVars.filter fun v => !v.2.2.isEmpty).length ≥ 
 example : Pandora.Spec.C11.pkgVarOk ("components/providers/scenario/http/postprocessor.exprCache", "map[string]*xpath.Expr",
     [("getValuesFromDOM", ".none")]) = false := by decide
 
+/-- **C11_component_vars_reviewed** (round 6): no component package of the current source keeps a package-level variable
+other than error values, import `sync.Once`s, `sync.Pool`s and the frozen jsoniter configuration: no templater, cache or
+component instance is shared by ALL pools of the process behind the back of the per-pool constructors. -/
+theorem C11_component_vars_reviewed : Pandora.Gen.Locks.pkgVars.all Pandora.Spec.C11.componentVarOk = true := by decide
+
+/-- non-vacuity: the table has component-package variables, and a package-level default templater (seeded change C11-r6-3:
+its cache is keyed by scenario / request name, so two pools with equal names render each other's templates) is rejected -/
+example : (Pandora.Gen.Locks.pkgVars.filter fun v => Pandora.Spec.C11.inComponents v.1).length ≥ 5 ∧
+    Pandora.Spec.C11.componentVarOk ("components/providers/scenario/http.defaultTemplater", "templater.Templater", []) = false := by
+  decide
+
 /-! ### the provider's side: requests built from a decoded ammo that is delivered again -/
 
 /-- the regenerated reference flows of `(*Provider).Acquire` of the http provider — since round 4 also `Acquire` / `Release`
